@@ -4,6 +4,6 @@ Require Import ExtrOcamlBasic.
 Require Import NS.theories.Utf8 NS.theories.GenLexer NS.theories.Lexer NS.theories.Layout.
 Extraction Language OCaml.
 Extraction "extract/ModelLayout.ml"
-  GenLexer.tok_name GenLexer.all_toks GenLexer.multi_table
+  GenLexer.tok_name GenLexer.all_toks GenLexer.multi_table GenLexer.keyword_table
   Lexer.lex Lexer.variant_of_source
   Layout.render Layout.tk_ok Layout.wf_layout Layout.separating Layout.tk_tok Layout.kpo.
